@@ -253,7 +253,7 @@ def run(ctx):
     viols = []
     tot_states = tot_trans = 0
     bounds = []
-    for (nmsgs, faults, early, depth) in ctx.pick([(1, 2, 1, 40), (2, 1, 0, 40)], [(1, 3, 2, 60), (2, 2, 1, 60), (2, 3, 1, 40)]):
+    for (nmsgs, faults, early, depth) in ctx.pick([(1, 2, 1, 40), (2, 1, 0, 40)], [(1, 3, 2, 60), (2, 2, 1, 60), (2, 3, 0, 60), (3, 1, 0, 60)]):
         cfg, r = core(ctx, nmsgs, faults, early, depth, ctx.pick(60, 900))
         tot_states += r["states"]
         tot_trans += r["transitions"]
